@@ -125,10 +125,10 @@ def main(ctx):
     mc(ctx, 'c02_sens', dict(RerunAfterAsync='FALSE'), ['AllDispatched'],
        expect='AllDispatched')
     # ---- 2. segmentation replay ----
-    cuts = cut_sets('c02_sim', 150 if quick else 3000, ctx.seed + 5)
+    cuts = cut_sets('c02_sim', 400 if quick else 3000, ctx.seed + 5)
     ctx.require(len(cuts) > 20, 'too few chunkings from TLC')
     rnd.shuffle(cuts)
-    cuts = cuts[:120 if quick else 2500]
+    cuts = cuts[:300 if quick else 2500]
     algs = [('aes128-ctr', 'hmac-sha2-256'),
             ('chacha20-poly1305@openssh.com', None),
             ('aes256-gcm@openssh.com', None),
@@ -164,6 +164,25 @@ def main(ctx):
                            'enc': enc})
             ctx.count(('seg', name, enc))
             n += 1
+    # chunks spanning MANY packets (bursts written before anything is read),
+    # and long streams cut into tiny chunks
+    for npk in ((40, 700) if quick else (40, 700, 3000)):
+        pl = [bytes([65 + i % 26]) * (1 + i % 3) for i in range(npk)]
+        for enc, mac in algs[:2] if quick else algs:
+            kw = dict(encryption_algs=[enc])
+            if mac:
+                kw['mac_algs'] = [mac]
+            for name, ch in (('coalesced', None), ('3bytes', lambda a: 3)):
+                if name == '3bytes' and npk > 700:
+                    continue
+                r = T.run_session(pl, client_kw=kw, server_kw=kw, chunker=ch,
+                                  burst=True)
+                judge_session(ctx, r, pl, f'burst of {npk} packets {name} '
+                              f'{enc}', {'module': 'RecvMachine',
+                                         'burst': npk, 'chunk': name,
+                                         'enc': enc})
+                ctx.count(('burst', npk, name, enc), nontrivial=True)
+                n += 1
     ctx.traces_validated(n)
     # ---- 3. wire conformance sweep ----
     encs = [e.decode() for e in get_encryption_algs()]
